@@ -15,6 +15,8 @@ import (
 	"image/png"
 	"net"
 	"os"
+	"path/filepath"
+	"runtime/pprof"
 	"strings"
 	"sync"
 	"time"
@@ -185,6 +187,53 @@ func fixedCases(s gen.Service) [][][]byte {
 		return out
 	case "adb":
 		return [][][]byte{{[]byte("CN")}, {[]byte("CNXN")}}
+	case "telnet":
+		// key sequences that never end: an escape sequence without its final letter and a bracketed paste without its
+		// end, both longer than any line-editor buffer (256 bytes in the common terminal code), after a login and
+		// before one
+		esc := append([]byte{0x1b, '['}, bytes.Repeat([]byte("1;"), 200)...)
+		paste := append([]byte{0x1b, '[', '2', '0', '0', '~'}, bytes.Repeat([]byte{0x1b, '['}, 200)...)
+		return [][][]byte{
+			{[]byte("root\n"), []byte("pw\n"), esc},
+			{esc},
+			{[]byte("root\n"), []byte("pw\n"), []byte("ls\n"), paste},
+			{[]byte("root\n"), []byte("pw\n"), bytes.Repeat([]byte{0x1b}, 600)},
+			{[]byte("root\n"), []byte("pw\n"), append(bytes.Repeat([]byte{0xe2, 0x82}, 200), 0x1b)},
+		}
+	case "snmp":
+		// a get-request in which one element declares a length far beyond the datagram, at every nesting depth
+		// (message, PDU, variable list, variable), with none, one or all of the enclosing structures flagged as
+		// primitive (a decoder that ignores the constructed bit still parses their content as elements)
+		tlv := func(tag byte, content ...[]byte) []byte {
+			c := bytes.Join(content, nil)
+			return append([]byte{tag, byte(len(c))}, c...)
+		}
+		huge := [][]byte{{0x04, 0x85, 0x42, 0x6e, 0x51, 0xd8, 0x82}, {0x0f, 0x84, 0x7f, 0xff, 0xff, 0xf0}}
+		oid := []byte{0x06, 0x08, 0x2b, 0x06, 0x01, 0x02, 0x01, 0x01, 0x01, 0x00}
+		var out [][][]byte
+		for _, mask := range []int{0, 1, 2, 4, 8, 15} {
+			tag := func(bit int, t byte) byte {
+				if mask&bit != 0 {
+					return t &^ 0x20
+				}
+				return t
+			}
+			for pos := 0; pos < 4; pos++ {
+				for _, h := range huge {
+					at := func(p int) []byte {
+						if p == pos {
+							return h
+						}
+						return nil
+					}
+					vb := tlv(tag(8, 0x30), at(3), oid, []byte{0x05, 0x00})
+					vbl := tlv(tag(4, 0x30), at(2), vb)
+					pdu := tlv(tag(2, 0xa0), at(1), []byte{0x02, 0x01, 0x01, 0x02, 0x01, 0x00, 0x02, 0x01, 0x00}, vbl)
+					out = append(out, [][]byte{tlv(tag(1, 0x30), at(0), []byte{0x02, 0x01, 0x00, 0x04, 0x06, 'p', 'u', 'b', 'l', 'i', 'c'}, pdu)})
+				}
+			}
+		}
+		return out
 	}
 	return nil
 }
@@ -196,6 +245,9 @@ func mkScenario(s gen.Service, seed int64, idx int, concOnly bool) scenario {
 	}
 	if !concOnly && s.Special == "ssh" && idx < len(fx)+fixedSpecials(s) {
 		// fixed special cases: authenticated sessions with every accepted credential tried in turn
+		if idx-len(fx) >= 2 {
+			return scenario{Kind: "ssh", K: 1, Sub: 7700 + idx, Force: 7}
+		}
 		return scenario{Kind: "ssh", K: 1, Sub: 7700 + idx, Force: 6}
 	}
 	r := core.NewRng(seed, "C01/"+s.Type+"/"+s.Net, idx)
@@ -359,6 +411,10 @@ func (prop) Child(b core.Batch, o *core.Obs) {
 		k := curK
 		kmu.Unlock()
 		quiet := time.Since(lab.LastClientSend()).Milliseconds()
+		if f, err := os.Create(filepath.Join(work, "heap.pprof")); err == nil { // who holds the memory: read by the judge
+			pprof.Lookup("heap").WriteTo(f, 0)
+			f.Close()
+		}
 		o.EmitX("memguard", map[string]interface{}{"k": k, "rss": rss, "quiet_ms": quiet, "samples": lab.RSSHistory()})
 	})
 	srv, err := lab.Start(config(s, work))
@@ -379,6 +435,7 @@ func (prop) Child(b core.Batch, o *core.Obs) {
 		curK = int64(k)
 		kmu.Unlock()
 		o.Begin(k)
+		writeLastInput(work, k, sc) // on disk before the first byte is sent: the witness of a process death
 		rec := runScenario(srv, s, sc, k, b.Verbose)
 		o.EmitX("scn", rec)
 		if k%8 == 7 || k == to-1 {
@@ -423,6 +480,19 @@ func (prop) Child(b core.Batch, o *core.Obs) {
 			o.EmitX("idlemem", ms)
 		}
 	}
+}
+
+// writeLastInput stores the scenario about to be run (messages in hex, clipped to 16 KiB each).
+func writeLastInput(work string, k int, sc scenario) {
+	var steps []string
+	for _, st := range sc.Steps {
+		if len(st) > 16384 {
+			st = st[:16384]
+		}
+		steps = append(steps, hex.EncodeToString(st))
+	}
+	jb, _ := json.Marshal(map[string]interface{}{"k": k, "kind": sc.Kind, "connections": sc.K, "segmentation": sc.Seg, "sub": sc.Sub, "messages_hex": steps})
+	os.WriteFile(filepath.Join(work, "last_input.json"), jb, 0644)
 }
 
 func recoveredSig(c lab.Captured) string {
@@ -589,7 +659,7 @@ func (w *Workload) FixedCount() int { return len(fixedCases(w.Svc)) + fixedSpeci
 
 func fixedSpecials(s gen.Service) int {
 	if s.Special == "ssh" {
-		return 2
+		return 4
 	}
 	return 0
 }
